@@ -3,17 +3,18 @@
 # Lane <lane> of <lanes>: takes every mutant whose index i satisfies i % stride == 0 and (i / stride) % lanes == lane, applies it to a
 # scratch worktree of /repo's main under /tmp/mut, runs the repository's own suite and - if the mutant survives it - every quick
 # check of /verif against that worktree. One JSON line per mutant is appended to /verif/target/mutation_results.jsonl.
+V="$(cd "$(dirname "${BASH_SOURCE[0]}")/.." && pwd)"   # the /verif tree (or a snapshot of it) this script belongs to
 LANE=$1; LANES=$2; STRIDE=$3; LIST=${4:-/verif/target/mutants.json}
-WT=/tmp/mut/lane$LANE; OUT=/tmp/mut/out$LANE; RES=/verif/target/mutation_results.jsonl
-mkdir -p /tmp/mut $OUT/evidence $OUT/replays; cp /verif/known_findings.json $OUT/
+WT=/tmp/mut/lane$LANE; OUT=/tmp/mut/out$LANE; RES=${MUT_RES:-/verif/target/mutation_results.jsonl}; OFFSET=${MUT_OFFSET:-0}
+mkdir -p /tmp/mut $OUT/evidence $OUT/replays; cp $V/known_findings.json $OUT/
 if [ ! -d $WT ]; then git -C /repo worktree prune; git -C /repo worktree add -q --detach $WT main || exit 2; cp -r /repo/target $WT/target 2>/dev/null; fi
 N=$(python3 -c "import json;print(len(json.load(open('$LIST'))))")
-IDS=$(python3 -c "import json;print(' '.join(c['property_id'] for c in json.load(open('/verif/MANIFEST.json'))['checks']))")
-for ((i=0; i<N; i+=STRIDE)); do
+IDS=$(python3 -c "import json;print(' '.join(c['property_id'] for c in json.load(open('$V/MANIFEST.json'))['checks']))")
+for ((i=OFFSET; i<N; i+=STRIDE)); do
   [ $(( (i / STRIDE) % LANES )) -eq $LANE ] || continue
   grep -q "\"index\": $i," $RES 2>/dev/null && continue
   git -C $WT checkout -q -- . ; git -C $WT reset -q --hard main
-  M=$(python3 /verif/tools/mutate.py apply $WT $LIST $i) || { echo "{\"index\": $i, \"suite\": \"apply-failed\"}" >> $RES; continue; }
+  M=$(python3 $V/tools/mutate.py apply $WT $LIST $i) || { echo "{\"index\": $i, \"suite\": \"apply-failed\"}" >> $RES; continue; }
   out=$(cd $WT && timeout 900 cargo test --offline 2>&1)
   if echo "$out" | grep -q "^test result: ok"; then suite=pass
   elif ! echo "$out" | grep -q "^test result"; then suite=no-compile
@@ -25,7 +26,7 @@ for ((i=0; i<N; i+=STRIDE)); do
   if [ $suite = pass ]; then
     checks="{"
     for id in $IDS; do
-      o=$(VERIF_REPO=$WT VERIF_TARGET=/verif/target_mut$LANE VERIF_DIR=$OUT timeout 900 /verif/check $id 2>&1); rc=$?
+      o=$(VERIF_REPO=$WT VERIF_TARGET=/verif/target_mut$LANE VERIF_DIR=$OUT timeout 900 $V/check $id 2>&1); rc=$?
       first=$(echo "$o" | grep -A1 "^VIOLATION" | grep "family=" | head -1 | cut -c1-200 | tr -d '"\\' )
       checks="$checks\"$id\": [$rc, \"$first\"],"
     done
